@@ -17,7 +17,9 @@ done
 # race builds used by the schedule checks
 for d in $(python3 -c "
 import json
-c=json.load(open('../checks.json'))
+import glob
+c={}
+for f in glob.glob('../checks.d/*.json'): c.update(json.load(open(f)))
 s=set()
 for p in c.values():
   for sub in p['subs']:
